@@ -674,6 +674,35 @@ def can_end_without_value(cfg, funcnode, good=None, explicit_none_ok=False):
     return cfg.exit in seen
 
 
+def facts_on_side(test, truth):
+    """atomic conditions known on the side of `test` where it evaluates to `truth`: [(atom expression, its truth value)].
+    true side of `a and b`: both true; false side of `a or b`: both false; `not x` flips; other shapes give the whole test"""
+    if isinstance(test, ast.UnaryOp) and isinstance(test.op, ast.Not):
+        return facts_on_side(test.operand, not truth)
+    if isinstance(test, ast.BoolOp):
+        if (isinstance(test.op, ast.And) and truth) or (isinstance(test.op, ast.Or) and not truth):
+            out = []
+            for v in test.values:
+                out += facts_on_side(v, truth)
+            return out
+        return []
+    return [(test, truth)]
+
+
+def sides_with_fact(cfg, pred):
+    """CFG node sets on which some test establishes a fact accepted by pred(atom, truth): union over all tests and both sides"""
+    res = set()
+    for t in cfg.nodes:
+        if t.kind != 'test':
+            continue
+        for truth, label in ((True, 'T'), (False, 'F')):
+            if any(pred(a, tv) for a, tv in facts_on_side(t.ast, truth)):
+                on = cfg.reach([t.id], labels={label}, avoid=[t.id])
+                off = cfg.reach([t.id], labels={'F' if label == 'T' else 'T'}, avoid=[t.id])
+                res |= (on - off)
+    return res
+
+
 # every public helper of this module is available through `from sa.lib import *`
 __all__ = sorted(set(__all__) | {k for k, v in list(globals().items())
                                  if not k.startswith('_') and getattr(v, '__module__', None) == __name__})
